@@ -61,6 +61,11 @@ type Case struct {
 	Note    string `json:"note,omitempty"`
 	// ViaAPI: the updates are POSTed through the real api/v2 handler, which stamps UpdatedAt (api_test.go)
 	ViaAPI bool `json:"via_api,omitempty"`
+	// Unrealisable (observed): the implementation serialises the updates of one alert upstream of the workers, so the
+	// requested schedule (kept in SchedRequested) could not be driven; the run was drained free-running, Sched is the
+	// in-order schedule the implementation effectively executed, and the end state is judged by the property itself
+	Unrealisable   bool  `json:"unrealisable,omitempty"`
+	SchedRequested []int `json:"sched_requested,omitempty"`
 	// Stat != nil: not a schedule but a run of a statistical engine (stat_test.go) with these parameters
 	Stat *StatParams `json:"stat,omitempty"`
 	// observed
@@ -251,34 +256,10 @@ func runCase(t *testing.T, c *Case) (viol []vh.Violation, tags map[string]int) {
 			}
 		}
 
-		next := 0                  // next update to submit
-		bind := map[int]string{}   // model worker -> real worker key
-		bound := map[string]bool{} // real worker keys in use
-		for si, w := range c.Sched {
-			if w < 0 || w >= c.W {
-				tags["step-noop-badworker"]++
-				continue
-			}
-			if key, ok := bind[w]; ok {
-				// Insert: the worker routes the alert it holds and store.Sets it into its groups
-				if !sched.Release(key) {
-					t.Fatalf("step %d: worker %s not parked", si, key)
-				}
-				synctest.Wait()
-				if at := sched.At(key); at != "" {
-					t.Fatalf("step %d: worker %s parked again at %s", si, key, at)
-				}
-				delete(bind, w)
-				delete(bound, key)
-				tags["step-insert"]++
-				continue
-			}
-			if next >= len(c.Updates) {
-				tags["step-noop-empty-queue"]++
-				continue
-			}
-			// Recv: submit the next update; exactly one idle real worker receives it and parks at the yield point
-			u := &c.Updates[next]
+		// submit publishes update number idx (Put, or POST through the real handler) and returns the stored version
+		submit := func(idx int) *alert.Alert {
+			next := idx
+			u := &c.Updates[idx]
 			var pub *alert.Alert
 			if c.ViaAPI {
 				time.Sleep(time.Duration(u.GapUs) * time.Microsecond)
@@ -312,6 +293,39 @@ func runCase(t *testing.T, c *Case) (viol []vh.Violation, tags map[string]int) {
 			}
 			v := verOf(pub, u.LS)
 			u.Pub = &v
+			return pub
+		}
+
+		next := 0                  // next update to submit
+		bind := map[int]string{}   // model worker -> real worker key
+		bound := map[string]bool{} // real worker keys in use
+		unreal := false
+		for si, w := range c.Sched {
+			if w < 0 || w >= c.W {
+				tags["step-noop-badworker"]++
+				continue
+			}
+			if key, ok := bind[w]; ok {
+				// Insert: the worker routes the alert it holds and store.Sets it into its groups
+				if !sched.Release(key) {
+					t.Fatalf("step %d: worker %s not parked", si, key)
+				}
+				synctest.Wait()
+				if at := sched.At(key); at != "" {
+					t.Fatalf("step %d: worker %s parked again at %s", si, key, at)
+				}
+				delete(bind, w)
+				delete(bound, key)
+				tags["step-insert"]++
+				continue
+			}
+			if next >= len(c.Updates) {
+				tags["step-noop-empty-queue"]++
+				continue
+			}
+			// Recv: submit the next update; exactly one idle real worker receives it and parks at the yield point
+			u := &c.Updates[next]
+			pub := submit(next)
 			next++
 			synctest.Wait()
 			got := ""
@@ -324,7 +338,12 @@ func runCase(t *testing.T, c *Case) (viol []vh.Violation, tags map[string]int) {
 				}
 			}
 			if got == "" {
-				t.Fatalf("step %d: no worker received the update", si)
+				// No idle worker took the update while another one is parked: the implementation orders the updates of
+				// one alert upstream of the workers (e.g. fingerprint affinity), so this schedule cannot be realised.
+				// Not a defect: release everything, let the run drain free-running, and judge the end state.
+				_ = u
+				unreal = true
+				break
 			}
 			if sched.WorkerOf(pub) != got {
 				viol = append(viol, vh.Violation{Key: "worker-got-other-version", What: "the worker did not receive the version the provider stored", Case: c})
@@ -335,10 +354,27 @@ func runCase(t *testing.T, c *Case) (viol []vh.Violation, tags map[string]int) {
 				tags["two-updates-in-flight"]++
 			}
 		}
+		if unreal {
+			sched.ReleaseAll()
+			synctest.Wait()
+			for ; next < len(c.Updates); next++ {
+				submit(next)
+				synctest.Wait()
+			}
+			bind = map[int]string{}
+			c.Unrealisable, c.SchedRequested = true, c.Sched
+			c.Sched = completeSched(c.W, len(c.Updates), nil) // what was executed: every update applied in submission order
+			tags["schedule-not-realisable"]++
+		}
 		if len(bind) != 0 || next != len(c.Updates) {
 			t.Fatalf("schedule does not drain the queue: %d held, %d/%d submitted", len(bind), next, len(c.Updates))
 		}
 		synctest.Wait()
+		// every published alert must have been processed (routeAlert completed) once everything is released: an alert that
+		// was published but never processed is lost - a defect, whatever the worker structure
+		if done := rig.Disp.VerifProcessedAlerts(); done != uint64(len(c.Updates)) {
+			viol = append(viol, vh.Violation{Key: "update-lost", What: fmt.Sprintf("%d alerts were published but only %d were processed by the dispatcher after the run drained", len(c.Updates), done), Case: c})
+		}
 
 		// observation
 		c.Final = []GroupAlert{}
@@ -551,6 +587,7 @@ func TestCheck(t *testing.T) {
 		}
 		cases = append(cases, genCases(env, vh.NewRand(env.Seed))...)
 	}
+	hookCases, hookUnreal := 0, 0
 	for i := range cases {
 		c := &cases[i]
 		if c.Stat != nil {
@@ -564,7 +601,11 @@ func TestCheck(t *testing.T) {
 			c.W = realWorkers()
 		}
 		viol, tags := runCase(t, c)
-		nontrivial := tags["two-updates-in-flight"] > 0
+		nontrivial := tags["two-updates-in-flight"] > 0 && !c.Unrealisable
+		hookCases++
+		if c.Unrealisable {
+			hookUnreal++
+		}
 		run.Add(coqCase(c), c, nontrivial)
 		for _, v := range viol {
 			run.Violate(v.Key, v.What, v.Case)
@@ -584,6 +625,12 @@ func TestCheck(t *testing.T) {
 			run.Count("cases_with_update_kind", k)
 		}
 	}
+	hk := map[string]any{"schedules": hookCases, "not_realisable_on_this_implementation": hookUnreal,
+		"meaning": "not realisable = the implementation orders the updates of one alert upstream of the workers (a parked worker holds update k and no idle worker receives update k+1); such runs are drained free-running and only their end state is judged (latest version held, every published alert processed)"}
+	if hookCases > 0 && hookUnreal == hookCases {
+		hk["note"] = "NO schedule of this run was realisable: the hook-driven tie was not exercised; the statistical engines are the judge"
+	}
+	run.Rep.Distribution["hook_driven_tie"] = hk
 	if env.Replay == "" {
 		for _, p := range statPlan(env) {
 			judgeStat(t, run, p)
